@@ -38,6 +38,7 @@ theorem nparts_le (it : Item) : nparts it ≤ 3 := by unfold nparts; split <;> d
 theorem solo_step {s : St} {t : Tid} (h : Inv s) (hd : ¬ isDone s t) :
     ∃ s', step s t = some s' ∧ soloFuel s' t < soloFuel s t := by
   unfold SendQ.step
+  simp only [enqueue_eq]
   split
   next hpc =>
     split
@@ -167,7 +168,7 @@ theorem runSolo_reachable {n : Nat} {prog : Tid → List Msg} (t : Tid) :
 
 theorem line_append {s s' : St} {t : Tid} {m : Msg} (hpc : s.pc t = .append m) (hs : step s t = some s') :
     s'.pc t = .check := by
-  unfold SendQ.step at hs; simp only [hpc] at hs; cases hs; simp
+  unfold SendQ.step at hs; simp only [hpc, enqueue_eq] at hs; cases hs; simp
 
 theorem line_check {s s' : St} {t : Tid} (hpc : s.pc t = .check) (hs : step s t = some s') :
     s'.pc t = .idle ∨ s'.pc t = .tryLock := by
@@ -183,6 +184,21 @@ theorem line_tryLock {s s' : St} {t : Tid} (hpc : s.pc t = .tryLock) (hs : step 
 
 theorem others_do_not_move {s s' : St} {t u : Tid} (hu : u ≠ t) (hs : step s u = some s') : s'.pc t = s.pc t :=
   ((step_frame hs).2.2.2.2.1 t (fun e => hu e.symm)).1
+
+/-- anything the rest of the system does while thread `t` does not execute a line: lines of other threads,
+nested sends started by anybody (also on `t`), transport failure -/
+inductive Others (t : Tid) : St → St → Prop where
+  | refl (s : St) : Others t s s
+  | step {s s1 s2 : St} (u : Tid) : u ≠ t → Others t s s1 → step s1 u = some s2 → Others t s s2
+  | reenter {s s1 : St} (p : Tid) (m : Msg) : Others t s s1 → Others t s (reenter s1 p m)
+  | brk {s s1 : St} : Others t s s1 → Others t s (breakTransport s1)
+
+theorem Others.pc_eq {t : Tid} {s s' : St} (h : Others t s s') : s'.pc t = s.pc t := by
+  induction h with
+  | refl => rfl
+  | step u hu _ hs ih => rw [others_do_not_move hu hs]; exact ih
+  | reenter p m _ ih => exact ih
+  | brk _ ih => exact ih
 
 /-- a freshly started nested activation needs at most 9 lines per queued item plus 25 -/
 theorem soloFuel_reenter {s : St} (hN : Nest s) (p : Tid) (m : Msg) :
